@@ -145,7 +145,20 @@ pub fn generate(seed: u64) -> History {
     let mut reqs = vec![];
     let mut i = 0usize;
     while reqs.len() < n {
-        match r.below(10) {
+        match r.below(11) {
+            10 => {
+                // neighbouring sizes around an extended block size K' (K' + 1, K', K' - 1 map to
+                // different table rows / paddings), also above the sparse threshold
+                let kps: Vec<u32> = crate::tables::T2.iter().map(|row| row.0).filter(|kp| *kp >= 10 && *kp <= 1300).collect();
+                let kp = *r.pick(&kps) as u16;
+                let mut trio = vec![kp + 1, kp, kp - 1];
+                if r.chance(1, 2) {
+                    trio.reverse();
+                }
+                for k in trio {
+                    reqs.push(Req { k, t: 4, data_seed: r.below(2) as u8 });
+                }
+            }
             0 => {
                 // two blocks whose byte lengths agree modulo 2^16 (same symbol size, different K)
                 let (t, step) = *r.pick(&[(1024u16, 64u16), (4096, 16), (16384, 4), (32768, 2)]);
